@@ -232,8 +232,14 @@ func readerContainsAny(r io.Reader, subslices ...[]byte) bool {
 		}
 
 		if n > 0 {
+			// only search what has been filled: the first round fills the lower
+			// half only, a short read leaves stale bytes behind it.
+			filled := buff[:n]
+			if i != 1 {
+				filled = buff[:halflen+n]
+			}
 			for _, sl := range subslices {
-				if bytes.Contains(buff, sl) {
+				if bytes.Contains(filled, sl) {
 					return true
 				}
 			}
